@@ -38,6 +38,9 @@ pub struct Ids {
     keyed_after_reuse: u32,
     reused_ids: HashSet<u64>,
     sym_reuse_events: u32,
+    replaced_in_place: HashSet<u64>,
+    cur_made: HashMap<LKey, HashSet<u64>>,
+    hash_collision_execs: u32,
 }
 
 impl Ids {
@@ -82,6 +85,7 @@ impl Oracle for Ids {
                         }
                     }
                     self.open.entry(*tid).or_default().push((*k, dk));
+                    self.cur_made.remove(k);
                 }
                 Rec::Made(creator, c) => {
                     // aliasing over the whole history
@@ -99,13 +103,26 @@ impl Oracle for Ids {
                         gens.insert(c.id);
                         self.ever_ent.insert(c.id, logical);
                     }
+                    // a colliding identity hash replaces the previous occupant in place (new
+                    // generation, no DidDiscard for the struct itself): the old id is gone
+                    let stale: Vec<u64> = self.live.keys().copied().filter(|old| ix(*old) == ix(c.id) && *old != c.id).collect();
+                    for old in stale {
+                        self.live.remove(&old);
+                        self.replaced_in_place.insert(old);
+                    }
                     // two live structs with one id
                     let le = LEnt { creator: *creator, ident: c.ident, occ: c.occ };
                     if let Some(other) = self.live.get(&c.id) {
-                        if *other != le {
+                        // an entry of the same creator is either left over from the creator's
+                        // previous execution (fine: the struct is being re-created, possibly at
+                        // another occurrence position when identity hashes collide) or was made
+                        // earlier in this very execution (two structs, one id)
+                        let same_exec = self.cur_made.get(creator).map(|s| s.contains(&c.id)).unwrap_or(false);
+                        if *other != le && (other.creator != *creator || same_exec) {
                             out.push(viol("id-shared-by-live-structs", cx.idx, format!("id {:#x}: {:?} and {:?}", c.id, other, le)));
                         }
                     }
+                    self.cur_made.entry(*creator).or_default().insert(c.id);
                     self.live.insert(c.id, le);
                 }
                 Rec::End(rec) => {
@@ -131,14 +148,24 @@ impl Oracle for Ids {
                     if rec.created.iter().any(|c| c.occ > 0) {
                         self.collisions += 1;
                     }
+                    // with the coarse identity hash, different identity values that share a hash
+                    // bucket are told apart by position only: stability of (identity, occurrence)
+                    // is then not promised, so it is asserted for collision-free executions only
+                    let coarse = cx.case.prog.coarse_hash;
+                    let collides = |l: &[Created]| coarse && l.iter().any(|a| l.iter().any(|b| a.ident != b.ident && (a.ident & 1) == (b.ident & 1)));
                     if let Some((pdk, plist)) = self.prev.get(&k) {
                         if *pdk == dk_id {
                             self.reexec_creators += 1;
+                            let cross = coarse && rec.created.iter().any(|a| plist.iter().any(|b| a.ident != b.ident && (a.ident & 1) == (b.ident & 1)));
+                            let check_stability = !(collides(&rec.created) || collides(plist) || cross);
+                            if !check_stability {
+                                self.hash_collision_execs += 1;
+                            }
                             for c in &rec.created {
                                 match plist.iter().find(|p| p.ident == c.ident && p.occ == c.occ) {
                                     Some(p) => {
                                         self.kept += 1;
-                                        if p.id != c.id {
+                                        if p.id != c.id && check_stability {
                                             out.push(viol(
                                                 "id-not-stable",
                                                 cx.idx,
@@ -149,10 +176,15 @@ impl Oracle for Ids {
                                     None => self.added += 1,
                                 }
                             }
+                            // discard is judged on ids: every id of the previous execution that
+                            // the new execution did not hand out again must be discarded (or its
+                            // slot was taken over in place by a struct whose identity hash collides)
                             for p in plist {
-                                if !rec.created.iter().any(|c| c.ident == p.ident && c.occ == p.occ) {
+                                if !rec.created.iter().any(|c| c.id == p.id) {
                                     self.dropped += 1;
-                                    expect_discard.push((p.id, k));
+                                    if !rec.created.iter().any(|c| ix(c.id) == ix(p.id)) {
+                                        expect_discard.push((p.id, k));
+                                    }
                                 }
                             }
                         }
@@ -168,7 +200,7 @@ impl Oracle for Ids {
         }
         // dropped structs must have been discarded in this step, with the memos keyed by them
         for (id, creator) in expect_discard {
-            if !step_discards.iter().any(|d| d.id == id) {
+            if !step_discards.iter().any(|d| d.id == id) && !self.replaced_in_place.contains(&id) {
                 out.push(viol("dropped-struct-not-discarded", cx.idx, format!("{creator:?} no longer creates struct {id:#x} but no DidDiscard was emitted")));
             }
             if let Some(dks) = self.on_ent_dk.get(&id) {
@@ -213,6 +245,12 @@ impl Oracle for Ids {
         if self.collisions > 0 {
             l.push("ident-collision");
         }
+        if self.hash_collision_execs > 0 {
+            l.push("ident-hash-collision");
+        }
+        if !self.replaced_in_place.is_empty() {
+            l.push("struct-replaced-in-place");
+        }
         l
     }
 }
@@ -256,8 +294,11 @@ pub fn spec_c06() -> PropSpec {
     pf.ops = [4, 5, 5, 9, 4, 4, 0, 0, 1, 1, 1, 0, 0];
     pf.ident_dom = 3;
     pf.ret_h_pct = 70;
-    pf.steps = [9, 8, 1, 0, 0, 0, 0, 0, 1];
+    pf.steps = [9, 8, 1, 1, 0, 0, 0, 0, 1];
     pf.max_steps = 30;
+    pf.coarse_hash_pct = 40;
+    pf.max_cells = 1;
+    pf.ops[11] = 1;
     PropSpec {
         id: "C06",
         profile: pf,
@@ -287,6 +328,7 @@ pub fn spec_c07() -> PropSpec {
     pf.steps = [8, 8, 4, 0, 0, 0, 0, 1, 1];
     pf.max_steps = 44;
     pf.min_steps = 10;
+    pf.coarse_hash_pct = 40;
     PropSpec {
         id: "C07",
         profile: pf,
